@@ -27,9 +27,11 @@ claim(
     "against a snapshot, be counted / pure look-ahead, or be forced out on the next iteration; the context-sensitive graph of "
     "parser calls reachable before any consumption is acyclic; no stated-belief abort reachable from the parse/type-check "
     "entry points outside dead arms, verified eliminating passes or audited guards; entry points return Err when parse errors "
-    "exist; MIR generation only receives inference contexts whose errors were inspected. Implicit panics, stack depth, "
-    "chumsky's tokenizer and span boundaries are not decided.",
-    TB, "abstract interpretation of parser loops (cursor progress domain with token-kind knowledge), recursion-guard graph, abort reachability, dominance of error gates",
+    "exist; MIR generation only receives inference contexts whose errors were inspected; the tokenizer (a PEG model of its "
+    "combinator value, extracted from MIR) consumes every bounded string in steps of at least one character; cycle detectors "
+    "look into every composite type form; diagnostic spans are built from offsets found in the text. Implicit panics and stack "
+    "depth are not decided.",
+    TB, "abstract interpretation of parser loops (cursor progress domain with token-kind knowledge), recursion-guard graph, abort reachability, dominance of error gates, bounded evaluation of the extracted lexer model, backward slicing of span operands",
     "DESIGN.md §2 C04",
 )
 claim(
@@ -38,8 +40,10 @@ claim(
     "the only caller of add_token and adds the token at the old cursor; start_node*/finish_node balanced on every path and loop "
     "cycle of every parser method; root loop leaves only at end of input (with C04.progress: each non-trivia token enters the tree "
     "exactly once, in order); trivia: the pending list of the pre-parser loses elements only into the trivia maps; token extents "
-    "come from one span / end marker / tiling chain. The tokenizer's own tiling (chumsky) is not decided.",
-    TB, "typestate/linearity rules over MIR: who-may-write, who-may-call, balanced-pair counting on enumerated paths, sink analysis",
+    "come from one span / end marker / tiling chain; the lexer, as a PEG model of the combinator value it is built from, tiles "
+    "every string over a 14-character alphabet up to a length bound and never repeats a step that consumes nothing. chumsky's own "
+    "span arithmetic is trusted.",
+    TB, "typestate/linearity rules over MIR: who-may-write, who-may-call, balanced-pair counting on enumerated paths, sink analysis; bounded exhaustive evaluation of the lexer model extracted from MIR",
     "DESIGN.md §2 C13",
 )
 claim(
@@ -170,8 +174,9 @@ claim(
     "Narrow structural clauses: every site of the MIR generator that maps a record field name to a slot index does so on the "
     "canonicalised record type (reads, writes, addresses and pattern destructuring agree, so field order in an agreeing annotation "
     "cannot change which slot is accessed); resolution/desugaring passes read every expression-bearing payload field of every Expr "
-    "form they match; generated labels inventoried. Whitespace/comment/parenthesis invariance (chumsky tokenizer, parser on values) "
-    "and inference under annotations are not decided.",
-    TB, "sibling agreement of slot-lookup sites (per-arm callee sets), payload-field use analysis per match arm",
+    "form they match; generated labels inventoried; invented binder names are unspellable; the lexer model (extracted from MIR) "
+    "lexes every literal token as itself and is stable under a blank inserted between two tokens; comments end where the "
+    "specification says. Parenthesis invariance beyond the tuple look-ahead and inference under annotations are not decided.",
+    TB, "sibling agreement of slot-lookup sites (per-arm callee sets), payload-field use analysis per match arm, bounded evaluation of the extracted lexer / comment-lexer models, name-template dataflow",
     "DESIGN.md §2 C16",
 )
